@@ -509,7 +509,9 @@ def gen_request_route(g, conf):
     if k == 5:
         return [(p, (l + 1) % 256 if isinstance(l, int) else l + '9')] + base[1:]
     if k == 6:
-        return [(p, '1.2.3.4' if isinstance(l, int) else 7)] + base[1:]
+        # other link kind: an address link instead of a number (also one that *spells* the number),
+        # a number instead of an address
+        return [(p, g.choice(['1.2.3.4', str(l)], 'lkind') if isinstance(l, int) else 7)] + base[1:]
     return base + [(1, 1)] if g.draw(2, 'longer') else (base[:-1] if len(base) > 1 else [])
 
 
@@ -720,6 +722,122 @@ def plan_chunks(sch, data, bounds, mode, split=None):
     return out
 
 
+def res_violations(w):
+    return bool(w.violations)
+
+
+def norm_response(w, rsp):
+    """A parsed reply as text, without the things that legitimately differ between two sessions."""
+    parser = w.m['parser']
+    try:
+        rsp['peer'] = None
+        rsp['enip.session_handle'] = 0
+    except Exception:       # noqa: BLE001
+        pass
+    return parser.enip_format(rsp)
+
+
+def client_side(w, sch, params, items, r1, s0_real, s0_model, other_sid, main_tags, stats):
+    client = w.m['client']
+    texts = []
+    rmode = params.get('rchunks') or sch.choice(['bytes', 'random', 'header', 'lastbyte', 'random', 'coalesce2'], 'rmode')
+    stats['rmode'] = rmode
+    rstream = b''.join(f.raw for f in r1)
+    rbounds = []
+    o = 0
+    for f in r1:
+        o += len(f.raw)
+        rbounds.append(o)
+    for attempt in ('whole', rmode):
+        if other_sid is not None:
+            poke_some(w, s0_real, [other_sid])
+            w.model.restore(merge_keep(w.model.snapshot(), s0_model, [other_sid]))
+        else:
+            w.poke(s0_real)
+            w.model.restore(s0_model)
+        try:
+            cli = client.client(host='127.0.0.1', port=PORT, timeout=5.0)
+        except Exception as exc:        # noqa: BLE001
+            w.violation('c02-client-connect', 'cpppo client could not connect: %s' % exc)
+            raise Violation()
+        s2c = w.net.conns[-1][0].rx
+        s2c.coalesce = False
+        s2c.cutter = None
+        got = []
+        try:
+            with cli:
+                cli.register(timeout=5.0)
+                rsp, _ = client.await_response(cli, timeout=10.0)
+                if not rsp or rsp.get('enip.status') != 0 or not rsp.get('enip.session_handle'):
+                    w.violation('c02-client-register', 'cpppo client: no Register Session reply (%r)' % (rsp,))
+                    raise Violation()
+                session = rsp.enip.session_handle
+                # now plan the cuts of the reply stream (absolute offsets, from here on)
+                if attempt != 'whole':
+                    if attempt == 'lastbyte':
+                        cuts = set(b - 1 for b in rbounds) | set(b - len(f.raw) + 24 for b, f in zip(rbounds, r1))
+                    else:
+                        pieces = plan_chunks(sch, rstream, rbounds, attempt, params.get('rsplit'))
+                        cuts, o = set(), 0
+                        for c in pieces[:-1]:
+                            o += len(c)
+                            cuts.add(o)
+                    pos = [0]
+
+                    def cutter(n, pos=pos, cuts=cuts):
+                        lo = pos[0]
+                        pos[0] += n
+                        return sorted(c - lo for c in cuts if lo < c < lo + n)
+                    s2c.cutter = cutter
+                    if sch.chance(1, 2, 'rlat'):
+                        s2c.latency = lambda sch=sch: sch.draw(8, 'rl') / 1000.0
+                    stats['rcuts'] = len(cuts)
+                raws = [it.raw[:4] + struct.pack('<I', session) + it.raw[8:] for it in items]
+                oneshot = sch.chance(1, 2, 'cli1shot')
+                if oneshot:
+                    cli.send(b''.join(raws), timeout=5.0)
+                for i, it in enumerate(items):
+                    if not oneshot:
+                        cli.send(raws[i], timeout=5.0)
+                    rsp, _ = client.await_response(cli, timeout=20.0)
+                    if not rsp:
+                        w.violation('c02-client-no-reply', 'cpppo client (%s delivery of the reply stream): no reply to frame %d %s (%r)' % (
+                            attempt, i, it.kind, rsp), chunks=attempt)
+                        raise Violation()
+                    got.append(rsp)
+        except Violation:
+            raise
+        except Exception as exc:        # noqa: BLE001
+            w.violation('c02-client-framing', 'cpppo client (%s delivery of the reply stream, %d cuts) raised %s: %s after %d of %d replies' % (
+                attempt, stats.get('rcuts', 0), type(exc).__name__, str(exc)[:200], len(got), len(items)), chunks=attempt)
+            raise Violation()
+        finally:
+            try:
+                cli.close()
+            except Exception:       # noqa: BLE001
+                pass
+        apply_items(w, items)
+        # framing-level equality with the reference replies
+        for i, (rsp, f) in enumerate(zip(got, r1)):
+            e = rsp.enip
+            mine = (e.command, e.status, bytes(bytearray(e.sender_context.input)), e.length,
+                    bytes(bytearray(e.get('input', b''))))
+            ref = (f.command, f.status, f.context, len(f.raw) - 24, f.raw[24:])
+            if mine != ref:
+                w.violation('c02-client-frame-content', 'cpppo client (%s): reply %d parsed as %r, the bytes were %s' % (
+                    attempt, i, mine[:4] + (mine[4].hex()[:80],), f.raw.hex()[:120]), chunks=attempt)
+        texts.append([norm_response(w, rsp) for rsp in got])
+        stats['client_replies'] = stats.get('client_replies', 0) + len(got)
+        d = state_diff_twin(w, main_tags)
+        if d:
+            w.violation('c02-state', 'after the stream sent by the cpppo client (%s): %r' % (attempt, d[:3]))
+            raise Violation()
+    if texts[0] != texts[1]:
+        k = [i for i, (a, b) in enumerate(zip(texts[0], texts[1])) if a != b]
+        w.violation('c02-client-segmentation-dependent', 'cpppo client: parsed reply %d differs between whole and %s delivery: %s vs %s' % (
+            k[0], rmode, texts[0][k[0]][:300], texts[1][k[0]][:300]), chunks=rmode)
+
+
 @world('c02')
 def c02(tapes, params):
     w = EnipWorld(tapes, dict(params, short_reads=True))
@@ -853,6 +971,11 @@ def c02(tapes, params):
             d = state_diff_twin(w, main_tags)
             if d:
                 w.violation('c02-state', 'after the chunked stream (%s): %r' % (cmode, d[:3]))
+            # --- the client side of the same framing: cpppo's own client.client receives the
+            # reply stream once frame by frame and once cut into chunks; the parsed replies must be
+            # the same, and equal the reference replies at the framing level
+            if not res_violations(w) and params.get('client_side', True) and g.chance(1, 2, 'cliside'):
+                client_side(w, sch, params, items, r1, s0_real, s0_model, other_sid, main_tags, stats)
         else:
             # --- crash point: deliver exactly k bytes of the stream, then end the connection
             n = len(stream)
